@@ -3015,6 +3015,15 @@ pub mod verif_hooks {
 	pub fn htlc_tx_fees_sat(feerate: u32, accepted: usize, offered: usize, tag: u8) -> u64 {
 		super::htlc_tx_fees_sat(feerate, accepted, offered, &channel_type(tag))
 	}
+	pub fn place_secret(idx: u64) -> u8 {
+		CounterpartyCommitmentSecrets::place_secret(idx)
+	}
+	pub fn secrets_from_raw(old_secrets: [([u8; 32], u64); 49]) -> CounterpartyCommitmentSecrets {
+		CounterpartyCommitmentSecrets { old_secrets }
+	}
+	pub fn secrets_raw(s: &CounterpartyCommitmentSecrets) -> &[([u8; 32], u64); 49] {
+		&s.old_secrets
+	}
 	pub fn supports(tag: u8) -> (bool, bool) {
 		let t = channel_type(tag);
 		(t.supports_anchors_zero_fee_htlc_tx(), t.supports_anchor_zero_fee_commitments())
